@@ -46,9 +46,17 @@ def _worker(idx):
             if _TIER == "thorough" and fam.error is None:
                 second_opinion(fam)
         recs = []
+        n_failed = 0
         for o in fam.obls:
             r = o.record()
             if o.verdict is not None and o.verdict.status == "failed":
+                n_failed += 1
+                if n_failed > 6:
+                    # many obligations of one family fail for one reason: the first few carry
+                    # counter-models and replay scenarios, the rest are only reported
+                    r["scenario"] = None
+                    recs.append(r)
+                    continue
                 r["model"] = extract_model(o)
                 from . import replay
                 if "memo" in o.name.split("/", 1)[-1]:
